@@ -481,8 +481,25 @@ ExtBurn(s, a) ==
   IF "BurnNilDec" \in Dev /\ s.burnQ[a.from] = -1 THEN [s EXCEPT !.next = @ + 1]
   ELSE [s EXCEPT !.burnQ = [@ EXCEPT ![a.from] = IF @ = -1 THEN a.num ELSE @ + a.num], !.next = @ + 1]
 
-\* CheckTx, Simulate (Query /app/simulate) and Query never change the state
-ReadOnly(s, a) == [s EXCEPT !.nro = @ + 1, !.lastRes = "n/a"]
+\* CheckTx, Simulate (Query /app/simulate) and Query never change the state.
+\* Named deviation "SimulateWritesRoot" (the code as it is, an open known finding): Simulate runs the
+\* ante handler on a cache that is dropped (no fee, and no signature check in simulate mode) but the
+\* message handler on a copy of the root multistore that shares the live sub-stores, so a handler
+\* that succeeds leaves its effects in the uncommitted state.
+ReadOnly(s, a) ==
+  LET s0 == [s EXCEPT !.nro = @ + 1, !.lastRes = "n/a"]
+      \* in simulate mode the signature is not verified, so a message changed after signing ("mut":
+      \* the harness adds 1 to the amount) is executed as changed; a foreign key is still refused
+      amt == IF a.bad = "mut" THEN a.amt + 1 ELSE a.amt
+  IN IF a.a = "Simulate" /\ "SimulateWritesRoot" \in Dev
+        /\ ~(a.bad \in {"garbage", "replay", "sig"} \/ ~TxBasicOk(a) \/ a.fee < Fee \/ ~HasCoins(s, a.from, a.fee))
+     THEN LET r == CASE a.kind = "stake"    -> HandleStake(s0, a.from, amt)
+                     [] a.kind = "unstake"  -> HandleBeginUnstake(s0, a.from)
+                     [] a.kind = "unjail"   -> HandleUnjail(s0, a.from)
+                     [] a.kind = "send"     -> HandleSend(s0, a.from, a.to, amt)
+                     [] a.kind = "setparam" -> HandleSetParam(s0, a)
+          IN IF r.ok THEN [r.s EXCEPT !.lastRes = "n/a"] ELSE s0
+     ELSE s0
 
 Step(s, a) ==
   CASE a.a = "InitChain"  -> InitChain(s)
